@@ -2,6 +2,6 @@ SPECIFICATION TSpec
 CONSTANTS N = 1
  MaxMsgs = 0
  MaxSpawn = 0
- Variant = "code"
+ Variants = {"code"}
 INVARIANT AcceptExit
 CHECK_DEADLOCK FALSE
